@@ -2108,7 +2108,7 @@ def _sb_Qmod(eng, st, node):
 
 
 def _sb_lemma_modularity(eng, st, node):
-    """Code-independent facts about node-to-module sums, module degrees, the aggregated matrix and modularity (Lean: VerifLemmas),
+    """Code-independent facts about node-to-module sums, module degrees, the aggregated matrix and modularity (Lean: modsum_empty, modsumT_empty, degsum_empty, degsumT_empty, knm_row_total, knm_col_total, agg_symm; table in engine/lean/README.md),
     instantiated for the given network W, label vector ci and size n.  Returned as one conjunction of implications.
       total:   labels in 1..n            => sum_m modsum(W,ci,x,m) = rowsum(W,x), sum_m modsumT(W,ci,x,m) = colsum(W,x)
       column:  sum_x modsum(W,ci,x,m) = degsumT(W,ci,m)  and  sum_x modsumT(W,ci,x,m) = degsum(W,ci,m)
@@ -2259,7 +2259,7 @@ def _sb_lemma_Qrawg_def(eng, st, node):
 
 
 def _sb_lemma_QrawB_def(eng, st, node):
-    """DEFINITION (Lean: Qraw, by rfl): K[x][y] == (B[x][y] if c[x] == c[y] else 0) for all cells => tsum(K) == QrawB(B, c).  lemma_QrawB_def(K, B, c, n)."""
+    """DEFINITION (Lean: Q_eq_Qraw for the shape of Qraw, which is this double sum by rfl): K[x][y] == (B[x][y] if c[x] == c[y] else 0) for all cells => tsum(K) == QrawB(B, c).  lemma_QrawB_def(K, B, c, n)."""
     K = _term2(eng, st, eng.ev(node.args[0], st))
     B = _term2(eng, st, eng.ev(node.args[1], st))
     c = _term1i(eng, st, eng.ev(node.args[2], st))
@@ -2575,7 +2575,7 @@ def _sb_umul(eng, st, node):
 
 
 def _sb_lemma_umul_linear(eng, st, node):
-    """LEMMA (real arithmetic, trivially true of multiplication; Lean: mul_sub, mul_two_comm): umul(d, a) - umul(d, b) == umul(d, a - b)
+    """LEMMA (real arithmetic, trivially true of multiplication; Lean: umul_sub, umul_two): umul(d, a) - umul(d, b) == umul(d, a - b)
     and umul(d, 2 * a) == 2 * umul(d, a), instantiated for the given terms.  lemma_umul_linear(d, a, b)."""
     d, a, b = [to_z3(eng.ev(x, st), REAL) for x in node.args]
     return z3.And(umul(d, a) - umul(d, b) == umul(d, a - b), umul(d, 2 * a) == 2 * umul(d, a), umul(d, 2 * b) == 2 * umul(d, b), umul(d, 2 * (a - b)) == 2 * umul(d, a - b))
@@ -2593,7 +2593,7 @@ def _sb_sdist(eng, st, node):
 
 def _sb_lemma_walks(eng, st, node):
     """Code-independent facts about walks in the graph of nonzero entries of G (n nodes) and the shortest-walk length sdist
-    (Lean: walk_*): lemma_walks(G, n[, k]).
+    (Lean: walk_one, walk_succ, walk_succ_prefix, walk_sdist, walk_add; table in engine/lean/README.md): lemma_walks(G, n[, k]).
       base:    walk(x,y,1) <-> G[x][y] != 0
       step:    walk(x,y,m+1) <-> exists z: walk(x,z,m) and G[z][y] != 0      (witness function for ->)
       sdist:   sdist >= 0; walk(x,y,m), m >= 1 -> 1 <= sdist(x,y) <= m;  sdist(x,y) >= 1 -> walk(x,y,sdist(x,y))
